@@ -1009,7 +1009,11 @@ def _correspond_disreg(ctx, np, raw, d, cfg, res, label, info, stats):
     if rng.random() < 0.5:
         ys = np.unique(y)
         pps.append(float(ys[rng.randrange(len(ys))]) * n)      # exactly on an atomic plane
-    disp = np.asarray(am.displacement(base, disl))
+    try:
+        disp = np.asarray(am.displacement(base, disl))
+    except Exception as e:  # noqa
+        ctx.disagree('disreg:displacement', f'{label}: atomman.displacement(base, disl) raised {type(e).__name__}: {e}', info)
+        return
     for pp in pps:
         kw = {} if pp is None else {'planepos': pp}
         try:
@@ -1309,6 +1313,9 @@ def _oracle_cells(ctx, case, raw, ucell, d, info, label):
     # slip plane (the documented search; angles in the frame of the solution, isclose tolerance of the code)
     up = np.asarray(d.uvws_prim, dtype=float)
     uc_ = np.array([[float(x) for x in r] for r in uvF])
+    if up.shape != (3, 3) or abs(np.linalg.det(up)) < 1e-9:
+        ctx.violate(key + ':uvws-prim', f'{label}: uvws_prim = {up.tolist()} is not a non-singular 3x3 matrix', info)
+        return True
     P = np.linalg.inv(up).dot(uc_)                         # primitive indices -> conventional indices
     allp = np.array([v for v in itertools.product(range(-5, 6), repeat=3) if any(v)], dtype=float)
     cart = allp.dot(P).dot(np.asarray(ucell.box.vects)).dot(np.asarray(d.transform).T)
@@ -1621,7 +1628,11 @@ def _disregistry_check(ctx, np, d, base, disl, kind, cfg, info, label, ucell_a=1
     # values.  Use the contiguous run of columns about the core in which no atom of the two planes is near the fold.
     lv0 = np.asarray(disl.box.vects)[d.lineindex]
     onp = np.isclose(y, ya) | np.isclose(y, yb)
-    dsp = np.asarray(am.displacement(base, disl))[onp]
+    try:
+        dsp = np.asarray(am.displacement(base, disl))[onp]
+    except Exception as e:  # noqa
+        ctx.violate('disregistry:raises', f'{label}: displacement(base, disl) raised {type(e).__name__}: {e}', info)
+        return
     frac = np.abs(dsp.dot(lv0)) / lv0.dot(lv0)
     ambx = xs[onp][frac > 0.45]
     if len(ambx):
